@@ -154,8 +154,20 @@ func (c *SumCopyCommand) sumCopyItem(item string, tow io.Writer) error {
 		return nil
 	}
 
-	if err := updateFileDataWithPointsList(destDB, srcPlDif, now); err != nil {
-		return err
+	// NOTE: See the comment in CopyCommand.copyOneFile for why the difference
+	// is recomputed for each archive right before it is written.
+	for archiveID := range destDB.ArchiveInfoList() {
+		if srcTsList[archiveID] == nil {
+			continue
+		}
+		destTs, err := destDB.FetchFromArchive(archiveID, c.From, until, now)
+		if err != nil {
+			return err
+		}
+		srcPlDif[archiveID], _ = srcTsList[archiveID].DiffPoints(destTs)
+		if err := destDB.UpdatePointsForArchive(srcPlDif[archiveID], archiveID, now); err != nil {
+			return err
+		}
 	}
 
 	if err := printFileData(tow, srcHeader, srcPlDif, true); err != nil {
